@@ -161,7 +161,9 @@ where
                             } else {
                                 let mut current_param = match current.parse::<u64>() {
                                     Ok(val) => val,
-                                    _ => 0,
+                                    // only digits are collected: a non-empty string
+                                    // that does not fit is a huge number
+                                    _ => if current.is_empty() { 0 } else { 9999 },
                                 };
                                 current_param = u64::min(current_param, 9999);
                                 params.push(current_param as u32);
@@ -284,7 +286,9 @@ where
                             } else {
                                 let mut current_param = match current.parse::<u64>() {
                                     Ok(val) => val,
-                                    _ => 0,
+                                    // only digits are collected: a non-empty string
+                                    // that does not fit is a huge number
+                                    _ => if current.is_empty() { 0 } else { 9999 },
                                 };
                                 current_param = u64::min(current_param, 9999);
                                 params.push(current_param as u32);
